@@ -286,6 +286,22 @@ pub fn run<P: Property>(p: &P, opts: &Opts) -> i32 {
 
     // single replay mode
     if let Some(path) = &opts.replay {
+        let raw: Value = std::fs::read_to_string(path).ok().and_then(|s| serde_json::from_str(&s).ok()).unwrap_or(Value::Null);
+        if raw["origin"] == "procedure" {
+            // a whole-run procedure (thread stress, silence, lookup table) failed: re-run it
+            let mut obs = Obs::new();
+            return match p.extra(opts.tier, opts.seed, &mut obs) {
+                Ok(()) => {
+                    println!("REPLAY-OK property={} replay={} (procedure re-run)", id, path.display());
+                    0
+                }
+                Err((m, _)) => {
+                    println!("replay fails: {}", m);
+                    println!("VIOLATION property={} replay={}", id, path.display());
+                    1
+                }
+            };
+        }
         let (input, _): (P::Input, Value) = read_replay(path);
         let mut obs = Obs::new();
         return match checked(p, &input, &mut obs) {
